@@ -140,12 +140,13 @@ instance (c : Card) : Decidable c.Sane := by cases c <;> unfold Card.Sane <;> in
     or both keys of a defined argument.  `ArgumentKey::operator==` is not transitive
     (`-a,--foo == -a,--bar` and `-a,--bar == --bar`, but `-a,--foo != --bar`), and the constraint
     container uses it to suppress duplicates; with keys that are not spellings of table keys an
-    exclusion can be lost (see `excludes_lost_without_argKeys` in Lemmas/RulesPending.lean).  The
+    exclusion can be lost (see `excludes_lost_without_argKeys` in Lemmas/RulesExample.lean).  The
     handler validates constraint keys against the table when the constraint is added, and the
     differential generator only produces such keys.
   * `cardSane` — a maximum number of values is -1 (the documented "unlimited") or non-negative.
     With `CardinalityMax( -5)` the object refuses every value but accepts the command line without
-    the argument, while "at most -5 values" is not met by zero values. -/
+    the argument, while "at most -5 values" is not met by zero values
+    (`cardinality_unsound_without_cardSane` in Lemmas/RulesExample.lean). -/
 structure Cfg.WellFormed (cfg : Cfg) : Prop where
   disjoint : Disjoint cfg.table
   argKeys  : ∀ d ∈ cfg.args, ∀ c ∈ d.constraints, ∀ k ∈ c.2, ∃ j, Names cfg k j
